@@ -25,15 +25,17 @@ func TestCheck(t *testing.T) {
 			"(C) count/allocate strategy in real time: limiters run in parallel with the real worker goroutines (300 ms wait, 100 ms batches, 2 s ticker) " +
 			"against scenario reply functions (honest, hostile limits, errors, flaps, delays/re-ordering, timeouts, omitted items, readiness flaps); " +
 			"shadow in-flight counter against the global max, sound window bound against (global qps, global burst). " +
+			"(E) deterministic carry-over cases for both strategies and both directions: hold what the limiter in effect admits, switch local<->remote (readiness flip / first granted quota q with local+q > global), admit until refused, count what is in flight at once. " +
 			"(D) the real clientsets.ClientSets (1 s heartbeat, 5 s hysteresis) against a stub limiter HTTP server: outage and recovery, probes judged by the readiness reported before and after each probe. " +
 			"Non-trivial = the history contains at least one non-honest reply or failure; distinct = hash of (schema, step list / scenario).")
 		r.Assume("the global limit of a token-bucket schema is the pair (global qps, global burst): admissions in any window of length T are at most burst + qps*T")
 		r.Assume("replies keep the schema's type and strategy (ill-typed and empty-detail replies are outside the quantifier; empty-detail replies are run and only counted)")
-		r.Assume("in-flight requests carried across a switch between the local and the remote limiter object are not judged (two semaphores by design); every probe releases what it took before the next step")
+		r.Assume("token buckets only: across a switch between the local and the remote limiter object both buckets hold tokens (two buckets by design); the real-time readiness-flap / first-sync scenarios are judged against the sum of the two buckets. Max-in-flight is judged against the global max in every scenario; an excess explained by requests of both limiter objects being in flight at once has its own signature (carryover-across-local-remote-switch)")
 
 		allocatePhase(r)
 		emptyDetailOutsideQuantifier(r)
 		countDeterministicPhase(r)
+		carryoverPhase(r)
 		// (D) runs next to (C): both are mostly waiting
 		hbDone := make(chan struct{})
 		go func() { defer close(hbDone); heartbeatPhase(r) }()
@@ -44,6 +46,7 @@ func TestCheck(t *testing.T) {
 		r.Require(r.Counter("allocate_probe_remote_in_effect") > 200, "the remote limiter was hardly ever in effect during allocate probes")
 		r.Require(r.Counter("allocate_probe_local_in_effect") > 200, "the local fallback was hardly ever in effect during allocate probes")
 		r.Require(r.Counter("count_det_steps") >= 100, "too few deterministic count-strategy steps")
+		r.Require(r.Counter("carryover_cases") >= int64(r.N(20, 200)), "too few deterministic carry-over cases completed")
 		r.Require(r.Counter("rt_acquire_replies") >= 500, "the count-strategy workers hardly ever reached the stub server")
 		r.Require(r.Counter("rt_admissions") >= 2000, "too few admissions in the real-time phase")
 		r.Require(r.Counter("hb_outages_reached_not_ready") >= int64(r.N(3, 16)) && r.Counter("hb_recoveries_observed") >= int64(r.N(3, 16)), "too few outage/recovery cycles of the real client set were observed")
